@@ -204,4 +204,15 @@ PROPS = {
              "checks": {"quick": 3000, "thorough": 150000}, "shards": {"quick": 4, "thorough": 4}},
         ],
     },
+    "C16": {
+        "level": "exploration", "sim": True,
+        "technique": "property-based testing (rapid): generated targets, selectors and decorator hook answers; oracle = diff of the target before/after each sync against 'before + named label/annotation keys + status + own finalizer', plus request-log rules (no write when nothing changes, spec never touched, foreign attachments never written)",
+        "level_text": "each sync of a generated decorator history is judged by comparing the stored target before and after with an expected object computed from the hook answer actually served",
+        "rule": ("rapid-generated cases: target kind (with/without status subresource, namespaced/cluster) with foreign labels, annotations, finalizers, owners and status x label/annotation selector combinations x hook answers (label/annotation maps with additions, overwrites, nulls, or absent; status null/fixed/echo; finalized) x "
+                 "attachments of other decorators/controllers x 2-5 syncs with target relabels, hook changes and spec edits in between; non-trivial = the answer changes at least one of labels/annotations/status/finalizer on the target; distinct = distinct choice sequences"),
+        "jobs": [
+            {"name": "c16-decorator", "pkg": DECORATOR, "tests": ["TestVerifC16Decorator"],
+             "checks": {"quick": 4000, "thorough": 200000}, "shards": {"quick": 8, "thorough": 12}},
+        ],
+    },
 }
